@@ -235,6 +235,42 @@ static void hierarchy_case(const char *cname, const char *rname, std::shared_ptr
         o.b("fresh", da.h == df.h).b("transfer", t0.h == t1.h).b("orig", v == 0).b("restored", restored).b("pow2", v == 0 || v == 1 || v == 3).b("scaled", scaled).i("relevels", re.size());
         vr::emit(o.done());
     }
+    // ---- the same kind of history on an object built by the NON-COPYING constructor: the caller keeps the matrix,
+    //      changes its values in place and hands the very same shared_ptr to rebuild()
+    {
+        auto Ash = std::make_shared<crsd>(*A);
+        g_seen.clear();
+        std::unique_ptr<AMG> amg2;
+        try { amg2.reset(new AMG(Ash, p)); } catch (const std::exception &) { return; }
+        auto T2 = access::transfers(*amg2);
+        vr::digest u0; access::dig_transfers(*amg2, u0);
+        std::vector<vec> act02 = apply_all(*amg2, probes);           // this object's own action for the original matrix
+        std::vector<int> hist2;
+        for (int step = 0; step < rebuild_steps; ++step) {
+            int v = (step == rebuild_steps - 1) ? 0 : g.range(1, 3);
+            hist2.push_back(v);
+            auto M = version(v);
+            std::copy(M->val, M->val + M->nnz, Ash->val);               // in-place update of the caller's matrix
+            g_seen.clear();
+            amg2->rebuild(Ash);
+            std::vector<seen> re = g_seen;
+            for (size_t k = 0; k < re.size(); ++k) emit_level(cname, k, re[k], is_aggr, adjoint, is_aggr ? c.over_interp : 0.0, "rebuild");
+            vr::digest u1; access::dig_transfers(*amg2, u1);
+            g_fixed = T2; g_fixed_next = 0;
+            typename FRESH::params fp; fp.coarse_enough = c.ce; fp.max_levels = c.ml; fp.direct_coarse = c.dc; fp.allow_rebuild = false; fp.ncycle = c.ncycle; fp.npre = c.npre; fp.npost = c.npost;
+            set_over_interp(fp.coarsening, c.over_interp);
+            FRESH fresh(*M, fp);
+            vr::digest da = apply_digest(*amg2, probes), df = apply_digest(fresh, probes);
+            std::vector<vec> act = apply_all(*amg2, probes);
+            bool restored = true, scaled = true; double f = v == 1 ? 0.5 : (v == 3 ? 0.25 : 1.0);
+            for (size_t q = 0; q < probes.size(); ++q) for (int i = 0; i < n; ++i) { if (act[q][i] != act02[q][i]) restored = false; if (act[q][i] != f * act02[q][i]) scaled = false; }
+            bool same_vals = std::equal(M->val, M->val + M->nnz, Ash->val) && std::equal(M->col, M->col + M->nnz, Ash->col);
+            vr::obj o; o.str("k", "rebuild").str("coarsening", cname).str("relax", rname).i("step", step).ints("hist", hist2).i("nt", omp_get_max_threads()).b("shared", true);
+            o.b("after_bad", false).b("bad_threw", false).b("unsorted", false).b("input_untouched", same_vals);
+            o.b("fresh", da.h == df.h).b("transfer", u0.h == u1.h).b("orig", v == 0).b("restored", restored).b("pow2", v == 0 || v == 1 || v == 3).b("scaled", scaled).i("relevels", re.size());
+            vr::emit(o.done());
+        }
+    }
 }
 
 
@@ -290,6 +326,15 @@ static void all_coarsenings(const char *rname, std::shared_ptr<crsd> A, const cf
     if (which & 8) hierarchy_case<amgcl::coarsening::smoothed_aggr_emin, Rx>("smoothed_aggr_emin", rname, A, c, false, false, tag, g, rb);
 }
 
+// structurally symmetric, numerically non-symmetric M-matrix (upwind-like): the couplings above the diagonal are
+// quartered, the diagonal keeps the row dominant; restriction and prolongation of the energy-minimising
+// coarsening are then genuinely different operators
+static std::shared_ptr<crsd> upwinded(std::shared_ptr<crsd> A) {
+    auto M = std::make_shared<crsd>(*A);
+    for (size_t i = 0; i < M->nrows; ++i) for (ptrdiff_t q = M->ptr[i]; q < M->ptr[i+1]; ++q) if (M->col[q] > (ptrdiff_t)i) M->val[q] *= 0.25;
+    return M;
+}
+
 int main(int argc, char **argv) {
     vr::install_terminate();
     std::string mode = argc > 1 ? argv[1] : "shapes";
@@ -316,6 +361,7 @@ int main(int argc, char **argv) {
         for (int r = 0; r < reps; ++r) {
             int n = g.range(8, th ? 160 : 70);
             auto A = g.coin() ? vr::random_mmatrix(g, n, 2.5 / n, 2, 1) : vr::poisson2d(g.range(3, 9), g.range(2, 8), 1, g.range(1, 2));
+            if (r % 3 == 2) A = upwinded(A);
             double oi = (r % 3 == 0) ? 1.0 : (r % 3 == 1 ? 2.0 : 1.5);
             cfg c{(unsigned)g.range(1, 6), (unsigned)g.range(2, 5), g.coin(), true, 1, 1, 1, oi};
             all_coarsenings<amgcl::relaxation::spai0>("spai0", A, c, "galerkin", g, 0, 15);
@@ -333,6 +379,7 @@ int main(int argc, char **argv) {
         int reps = th ? 10 : 3;
         for (int r = 0; r < reps; ++r) {
             auto A = r % 2 ? vr::random_mmatrix(g, g.range(30, 120), 0.04, 2, 1) : vr::poisson2d(g.range(5, 12), g.range(4, 9));
+            if (r % 3 == 2) A = upwinded(A);
             cfg c{(unsigned)g.range(2, 8), 100u, (bool)(r % 3 != 2), true, (unsigned)g.range(1, 2), (unsigned)g.range(1, 2), (unsigned)g.range(1, 2), r % 2 ? 2.0 : 1.5};
             int steps = g.range(2, 4);
             all_coarsenings<amgcl::relaxation::spai0>("spai0", A, c, "rebuild", g, steps, 15);
